@@ -10,8 +10,11 @@ folding flag and labels.  *Reversing every axis of a C-ordered array is reversin
 `_total_per_entry` at flat index `k` is the digit sum of `k` in the mixed radix given by the shape.
 
 The pointwise formulas (`fold_outData`, `fold_outMask`, `unfold_*`, `misidCoef*`, `foldingRefused`,
-`binop*`, `cornerFlat`, `autofold_*`) are NOT written here: they are regenerated from the current
-source into Generated/Fold.lean by tools/gen_Fold.py on every run.  Core Lean only.
+`binop*`, `cornerFlat`, `autofold_*`), the statement lists of the two operator templates (`binaryProgram`,
+`inplaceProgram`: folding check, `self.data.<op>(…)`, mask statements, in source order — executed here by the
+interpreter `runT` for every kind of operand) and the attribute rules of the numpy subclass hooks
+(`finalize_folded`, `updateFrom_folded`, `wrap_folded`, `log_folded`, … : `AttrRule`) are NOT written here: they are
+regenerated from the current source into Generated/Fold.lean by tools/gen_Fold.py on every run.  Core Lean only.
 -/
 namespace DadiVerif
 namespace Fold
@@ -129,10 +132,12 @@ def dataAt : Operand → Nat → Rat
   | spectrum S, k => S.x k | masked d _, k => d.getD k 0 | plain d, k => d.getD k 0 | scalar c, _ => c
 def maskAt : Operand → Nat → Bool
   | spectrum S, k => S.m k | masked _ m, k => m.getD k false | _, _ => false
-/-- array operands must have exactly the entries of `self` (broadcasting is not modelled) -/
+/-- array operands must have exactly the entries of `self` (broadcasting is not modelled).  Only the data array is
+    measured — it is what the forwarded ndarray method receives (`other.data`); masks are read entry by entry (`maskAt`),
+    and the driver only builds operands whose mask is as long as their data -/
 def fits : Operand → Nat → Bool
-  | spectrum S, N => S.data.size == N && S.mask.size == N
-  | masked d m, N => d.size == N && m.size == N
+  | spectrum S, N => S.data.size == N
+  | masked d _, N => d.size == N
   | plain d, N => d.size == N
   | scalar _, _ => true
 end Operand
@@ -178,48 +183,149 @@ def arith (M : Method) (a b : Rat) : Option Rat :=
 def arithDefined (M : Method) (S : Spec) (o : Operand) : Bool :=
   (List.range S.N).all fun k => (arith M (S.x k) (o.dataAt k)).isSome
 
-/-- the guards common to both templates, in source order: folding check, then the forwarded ndarray method -/
-def guards (methods : List String) (name : String) (S : Spec) (o : Operand) : Option Res :=
-  if !methods.contains name then some (.undefined "not-a-template-method")
-  else if foldingRefused o.isSpectrum S.folded o.folded then some (.raise foldingRefusedWhat)
-  else if ndarrayLacks.contains name then some (.raise "AttributeError")
-  else if !o.fits S.N then some (.undefined "shape")
-  else none
+/-! #### interpreter of the generated statement lists (`Gen.Fold.binaryProgram`, `Gen.Fold.inplaceProgram`)
 
-/-- the Spectrum a binary template constructs -/
-def binOut (M : Method) (S : Spec) (o : Operand) : Spec :=
-  { shape := S.shape
-    data := tabulate S.N fun k => (arith M (S.x k) (o.dataAt k)).getD 0
-    mask := tabulate S.N fun k =>
-      (if o.isMasked then (S.m k || o.maskAt k) else S.m k) || (binopMaskCorners && cornerFlat S.N k)
-    folded := binopFolded S.folded o.folded
-    popIds := if o.isSpectrum then binopPopIds S.popIds o.popIds else S.popIds }
+The statements of the two templates that check the folding status and compute data and mask are translated one by one into
+`TStmt`s (Model/FoldIR.lean); they are executed here in source order, for every kind of operand.  `self.data.<method>(a)`
+works on the data arrays — entries under the mask included —, `numpy.ma.mask_or` on the masks. -/
 
-/-- binary template (`__add__`, `__radd__`, …): a new Spectrum -/
-def binop (name : String) (S : Spec) (o : Operand) : Res :=
-  match guards binaryMethods name S o with
-  | some r => r
-  | none =>
-    match methodOf name with
+/-- state while a template runs: `self` as it is now, the locals `newdata` / `newmask`, other local names -/
+structure TState where
+  self    : Spec
+  newData : Option (Array Rat)
+  newMask : Option (Array Bool)
+  env     : List (String × Operand)
+deriving Repr
+
+inductive TRes where
+  | done (st : TState)
+  | raise (what : String) (st : TState)      -- the exception, and the state it leaves behind
+  | undefined (why : String)
+deriving Repr
+
+/-- `isinstance(other, numpy.ma.masked_array)` decides which guarded statements run -/
+def TCond.holds (o : Operand) : TCond → Bool
+  | .always => true
+  | .ifMasked => o.isMasked
+  | .ifNotMasked => !o.isMasked
+
+/-- `other.data` (of a masked array: its data as a plain ndarray) -/
+def Operand.dataOf : Operand → Option Operand
+  | .spectrum S => some (.plain S.data)
+  | .masked d _ => some (.plain d)
+  | _ => none
+
+def evalArg (o : Operand) (env : List (String × Operand)) : TArg → Option Operand
+  | .other => some o
+  | .otherData => o.dataOf
+  | .var n => env.lookup n
+
+/-- a mask expression; `none`: `other.mask` of an operand that has no mask -/
+def evalMask (S : Spec) (o : Operand) : TMask → Option (Array Bool)
+  | .selfMask => some (tabulate S.N fun k => S.m k)
+  | .maskOr => if o.isMasked then some (tabulate S.N fun k => S.m k || o.maskAt k) else none
+
+inductive DataRes where
+  | ok (d : Array Rat)
+  | raise (what : String)
+  | undefined (why : String)
+
+/-- `self.data.<name>(v)`: the forwarded ndarray method, on every entry of the data array (masked or not) -/
+def dataOp (name : String) (M? : Option Method) (S : Spec) (v : Operand) : DataRes :=
+  if ndarrayLacks.contains name then .raise "AttributeError"
+  else if v.isMasked then .undefined "ndarray-method-on-masked-operand"
+  else if !v.fits S.N then .undefined "shape"
+  else match M? with
     | none => .undefined "method"
-    | some M => if !arithDefined M S o then .undefined "arith" else .ok (binOut M S o)
+    | some M =>
+      if !arithDefined M S v then .undefined "arith"
+      else .ok (tabulate S.N fun k => (arith M (S.x k) (v.dataAt k)).getD 0)
 
-/-- `self` after an in-place template -/
-def inplaceOut (M : Method) (S : Spec) (o : Operand) : Spec :=
-  { S with
-    data := tabulate S.N fun k => (arith M (S.x k) (o.dataAt k)).getD 0
-    mask := tabulate S.N fun k => if o.isMasked then (S.m k || o.maskAt k) else S.m k }
+/-- one statement -/
+def stepT (name : String) (M? : Option Method) (o : Operand) (a : TAct) (st : TState) : TRes :=
+  match a with
+  | .check t =>
+    match evalArg o st.env t with
+    | none => .undefined "argument"
+    | some v => if foldingRefused v.isSpectrum st.self.folded v.folded then .raise foldingRefusedWhat st else .done st
+  | .bind n t =>
+    match evalArg o st.env t with
+    | none => .undefined "argument"
+    | some v => .done { st with env := (n, v) :: st.env }
+  | .newData t =>
+    match evalArg o st.env t with
+    | none => .undefined "argument"
+    | some v =>
+      match dataOp name M? st.self v with
+      | .ok d => .done { st with newData := some d }
+      | .raise w => .raise w st
+      | .undefined w => .undefined w
+  | .newMask e =>
+    match evalMask st.self o e with
+    | none => .undefined "mask"
+    | some mk => .done { st with newMask := some mk }
+  | .selfData t =>
+    match evalArg o st.env t with
+    | none => .undefined "argument"
+    | some v =>
+      match dataOp name M? st.self v with
+      | .ok d => .done { st with self := { st.self with data := d } }
+      | .raise w => .raise w st
+      | .undefined w => .undefined w
+  | .selfMask e =>
+    match evalMask st.self o e with
+    | none => .undefined "mask"
+    | some mk => .done { st with self := { st.self with mask := mk } }
+
+/-- the statement list, in order; stops at the first exception -/
+def runT (name : String) (M? : Option Method) (o : Operand) : List TStmt → TState → TRes
+  | [], st => .done st
+  | s :: rest, st =>
+    if s.cond.holds o then
+      match stepT name M? o s.act st with
+      | .done st' => runT name M? o rest st'
+      | r => r
+    else runT name M? o rest st
+
+def TState.init (S : Spec) : TState := { self := S, newData := none, newMask := none, env := [] }
+
+/-- binary template (`__add__`, `__radd__`, …): the generated statements, then the constructor call
+    `self.__class__.__new__(self.__class__, newdata, newmask, mask_corners=…, data_folded=…, pop_ids=newpop_ids)` -/
+def binop (name : String) (S : Spec) (o : Operand) : Res :=
+  if !binaryMethods.contains name then .undefined "not-a-template-method" else
+  match runT name (methodOf name) o binaryProgram (TState.init S) with
+  | .undefined w => .undefined w
+  | .raise w _ => .raise w
+  | .done st =>
+    match st.newData, st.newMask with
+    | some d, some mk =>
+      .ok { shape := S.shape
+            data := d
+            mask := tabulate S.N fun k => mk.getD k false || (binopMaskCorners && cornerFlat S.N k)
+            folded := binopFolded S.folded o.folded
+            popIds := if o.isSpectrum then binopPopIds S.popIds o.popIds else S.popIds }
+    | _, _ => .undefined "template"
+
+/-- the in-place template up to its `return self` -/
+def inplaceRun (name : String) (S : Spec) (o : Operand) : TRes :=
+  runT name (methodOf name) o inplaceProgram (TState.init S)
 
 /-- in-place template (`__iadd__`, …): `self` updated and returned -/
 def inplace (name : String) (S : Spec) (o : Operand) : Res :=
-  match guards inplaceMethods name S o with
-  | some r => r
-  | none =>
-    match methodOf name with
-    | none => .undefined "method"
-    | some M =>
-      if !inplaceShapeOk then .undefined "template" else
-      if !arithDefined M S o then .undefined "arith" else .ok (inplaceOut M S o)
+  if !inplaceMethods.contains name then .undefined "not-a-template-method" else
+  if !inplaceShapeOk then .undefined "template" else
+  match inplaceRun name S o with
+  | .undefined w => .undefined w
+  | .raise w _ => .raise w
+  | .done st => .ok st.self
+
+/-- the spectrum an in-place operator was applied to, afterwards — whether the call returned or raised -/
+def inplaceSelfAfter (name : String) (S : Spec) (o : Operand) : Option Spec :=
+  if !inplaceMethods.contains name then none else
+  match inplaceRun name S o with
+  | .undefined _ => none
+  | .raise _ st => some st.self
+  | .done st => some st.self
 
 /-- `Numerics.apply_anc_state_misid(fs, p)`: `A*fs + B*reverse_array(fs)` evaluated with the templates -/
 def applyMisid (S : Spec) (p : Rat) : Res :=
@@ -247,17 +353,131 @@ def selCounts (sel : List AxisSel) : List Nat := sel.map fun a => if a.drop then
 def selSrc (shape : List Nat) (sel : List AxisSel) (k : Nat) : Nat :=
   flatIdx shape (List.zipWith selPos sel (unflat (selCounts sel) k))
 
-/-- the view `fs[sel]` -/
-def sliceOut (S : Spec) (sel : List AxisSel) : Spec :=
+/-! ### attributes of views, slices, ufunc results and copies
+
+`Spectrum` keeps `folded` and `pop_ids` through numpy's subclass protocol: `__array_finalize__`, `_update_from`,
+`__array_wrap__` (and `log`, which re-assigns them by hand).  What each of these does to an attribute is *generated*
+(`Gen.Fold.finalize_folded : AttrRule`, …).  The order in which numpy / numpy.ma call them is numpy's; it is written down
+in `hooksOf` (order of the hooks' own assignments, i.e. the order in which the calls *return*) and compared with the call
+sequence observed on the implementation by the harness.  `A` = the hook is handed the plain data ndarray (numpy.ma builds
+results from `self._data`), `S` = it is handed the Spectrum the result derives from. -/
+
+inductive ViewKind where
+  | slice       -- `fs[index]`, `reverse_array(fs)`, transposes: `dout = self.data[indx].view(type(self)); dout._update_from(self)`
+  | ufunc       -- `-fs`, `+fs`, `abs(fs)`: numpy ufunc, result wrapped by `__array_wrap__`
+  | copy        -- `fs.copy()`
+  | deepcopy    -- `copy.deepcopy(fs)`
+  | view        -- `fs.view()`
+  | log         -- `fs.log()`
+deriving Repr, DecidableEq
+
+inductive Hook where
+  | finalize (fromSpectrum : Bool)      -- `__array_finalize__(res, obj)`
+  | updateFrom (fromSpectrum : Bool)    -- `res._update_from(obj)`
+  | wrap                                -- the assignments of `__array_wrap__`
+  | log                                 -- the assignments of `log`
+deriving Repr, DecidableEq
+
+def hooksOf : ViewKind → List Hook
+  | .slice => [.updateFrom false, .finalize false, .updateFrom true]
+  | .copy => [.updateFrom false, .finalize false, .updateFrom true]
+  | .ufunc => [.updateFrom false, .finalize false, .updateFrom false, .finalize false, .updateFrom true, .wrap]
+  | .deepcopy => [.updateFrom true, .finalize true, .updateFrom true, .finalize true]
+  | .view => [.updateFrom true, .finalize true]
+  | .log => [.updateFrom false, .finalize false, .updateFrom true, .log]
+
+def Hook.show : Hook → String
+  | .finalize b => if b then "fin(S)" else "fin(A)"
+  | .updateFrom b => if b then "upd(S)" else "upd(A)"
+  | .wrap => "wrap"
+  | .log => "log"
+
+/-- one attribute through one hook.  `cur`: value the result has now (`none` = no proper value: absent / `'unspecified'` /
+    `None`); `obj`: `none` if the object the hook copies from does not have the attribute, else its value; `operand`: the
+    attribute of the Spectrum the operation was applied to -/
+def AttrRule.apply {α : Type} (r : AttrRule) (lit : Bool → Option α) (cur : Option α) (obj : Option (Option α))
+    (operand : Option α) : Option α :=
+  match r with
+  | .getattrDefault => match obj with | some v => v | none => none
+  | .ifHasattr => match obj with | some v => v | none => cur
+  | .fromSelf => operand
+  | .constNone => none
+  | .constBool b => lit b
+  | .untouched => cur
+
+def hookFolded (parent : Option Bool) : Hook → Option Bool → Option Bool
+  | .finalize b, cur => finalize_folded.apply some cur (if b then some parent else none) parent
+  | .updateFrom b, cur => updateFrom_folded.apply some cur (if b then some parent else none) parent
+  | .wrap, cur => wrap_folded.apply some cur none parent
+  | .log, cur => log_folded.apply some cur none parent
+
+def hookPopIds (parent : Option (List String)) : Hook → Option (List String) → Option (List String)
+  | .finalize b, cur => finalize_popIds.apply (fun _ => none) cur (if b then some parent else none) parent
+  | .updateFrom b, cur => updateFrom_popIds.apply (fun _ => none) cur (if b then some parent else none) parent
+  | .wrap, cur => wrap_popIds.apply (fun _ => none) cur none parent
+  | .log, cur => log_popIds.apply (fun _ => none) cur none parent
+
+/-- `folded` of an array derived from `S`; `none`: not `True` / `False` (`'unspecified'`) -/
+def derivedFolded (k : ViewKind) (S : Spec) : Option Bool :=
+  (hooksOf k).foldl (fun cur h => hookFolded (some S.folded) h cur) none
+
+/-- `pop_ids` of an array derived from `S` -/
+def derivedPopIds (k : ViewKind) (S : Spec) : Option (List String) :=
+  (hooksOf k).foldl (fun cur h => hookPopIds S.popIds h cur) none
+
+/-- the view `fs[sel]`: the selected entries -/
+def sliceOut (S : Spec) (sel : List AxisSel) (folded : Bool) (popIds : Option (List String)) : Spec :=
   { shape := (sel.filter fun a => !a.drop).map (·.count)
     data := tabulate (prodL (selCounts sel)) fun k => S.x (selSrc S.shape sel k)
     mask := tabulate (prodL (selCounts sel)) fun k => S.m (selSrc S.shape sel k)
-    folded := S.folded
-    popIds := S.popIds }
+    folded := folded
+    popIds := popIds }
 
-/-- `fs[sel]` (basic slicing): a view; folded flag and labels are those of `fs` -/
+/-- `fs[sel]` (basic slicing): a view whose folded flag and labels are what the subclass hooks make of those of `fs` -/
 def sliceSpec (S : Spec) (sel : List AxisSel) : Res :=
-  if sel.length ≠ S.shape.length then .undefined "rank" else .ok (sliceOut S sel)
+  if sel.length ≠ S.shape.length then .undefined "rank" else
+  match derivedFolded .slice S with
+  | none => .undefined "folded-unspecified"
+  | some f => .ok (sliceOut S sel f (derivedPopIds .slice S))
+
+/-! ### unary operations -/
+
+inductive UnaryOp where
+  | neg | pos | abs | copy | deepcopy | view | log
+deriving Repr, DecidableEq
+
+def UnaryOp.ofString : String → Option UnaryOp
+  | "neg" => some .neg | "pos" => some .pos | "abs" => some .abs | "copy" => some .copy
+  | "deepcopy" => some .deepcopy | "view" => some .view | "log" => some .log | _ => none
+
+def UnaryOp.kind : UnaryOp → ViewKind
+  | .neg => .ufunc | .pos => .ufunc | .abs => .ufunc
+  | .copy => .copy | .deepcopy => .deepcopy | .view => .view | .log => .log
+
+/-- data of the result at one entry (masked or not).  `log`: the logarithm is not rational — only the entries numpy.ma
+    leaves at their input value (the masked ones) are modelled, see `unaryMask` -/
+def unaryData (op : UnaryOp) (x : Rat) : Rat :=
+  match op with
+  | .neg => -x
+  | .abs => ratAbs x
+  | _ => x
+
+/-- mask of the result at one entry: the operand's; `numpy.ma.log` also masks entries outside its domain (`x ≤ 0`) -/
+def unaryMask (op : UnaryOp) (x : Rat) (m : Bool) : Bool :=
+  match op with
+  | .log => m || decide (x ≤ 0)
+  | _ => m
+
+/-- `-fs`, `+fs`, `abs(fs)`, `fs.copy()`, `copy.deepcopy(fs)`, `fs.view()`, `fs.log()` -/
+def unarySpec (op : UnaryOp) (S : Spec) : Res :=
+  match derivedFolded op.kind S with
+  | none => .undefined "folded-unspecified"
+  | some f =>
+    .ok { shape := S.shape
+          data := tabulate S.N fun k => unaryData op (S.x k)
+          mask := tabulate S.N fun k => unaryMask op (S.x k) (S.m k)
+          folded := f
+          popIds := derivedPopIds op.kind S }
 
 /-! ### automatic folding in the likelihood functions -/
 def autofold (fname : String) (dataHasFolded dataFolded modelFolded : Bool) : Option Bool :=
